@@ -52,8 +52,25 @@ def worker(job):
         try:
             _, arrs, lres = progs.trace(prog, S, style, sizes, seed, special)
         except Exception as e:
-            rec["fail"].append({**case, "kind": "trace-raises", "step": None,
-                                "detail": f"{type(e).__name__}: {str(e)[:300]}"})
+            # a shape error at trace time downstream of the recorded `where` equal-branches fold (the fold drops the
+            # condition's extents, so a later shape-checked step no longer fits): same defect, other symptom
+            culprit = None
+            for jw, stw in enumerate(prog["steps"]):
+                if stw["op"] == "where" and evals[jw] is not None and progs.where_cause(prog, jw, vals, evals) == "equal-branches":
+                    try:
+                        xs = [np.shape(np.ma.getdata(evals[r[1]] if r[0] == "st" else (vals[r[1]] if r[0] == "in" else np.asarray(r[1] if r[0] == "py" else np.array(r[3]).reshape(r[2])))))
+                              for r in stw["args"][1:]]
+                        if tuple(np.broadcast_shapes(*xs)) != tuple(np.shape(evals[jw])):
+                            culprit = jw
+                            break
+                    except Exception:
+                        pass
+            if culprit is not None:
+                rec["fail"].append({**case, "kind": "trace-raises-downstream", "step": culprit, "op": "where", "cause": "equal-branches",
+                                    "detail": f"{type(e).__name__}: {str(e)[:300]}"})
+            else:
+                rec["fail"].append({**case, "kind": "trace-raises", "step": None,
+                                    "detail": f"{type(e).__name__}: {str(e)[:300]}"})
             continue
         try:
             model, outs = progs.build_and_run(prog, S, arrs, lres, [vals])
